@@ -1007,3 +1007,74 @@ Section Accept.
     destruct (insert_w re_ok t (ksteps key) key v) as [t' r]. cbn [snd] in *. destruct r; cbn [snd failed] in *; congruence.
   Qed.
 End Accept.
+
+(** ** lookup after insert, for every key the trie accepts *)
+Fixpoint finals_last (l : list kstep) : bool :=
+  match l with
+  | [] => true
+  | KStar :: r | KBad :: r | KLab _ true :: r | KRe _ true :: r => is_nil r
+  | _ :: r => finals_last r
+  end.
+
+Lemma ksteps_f_finals_last fuel : forall pk, finals_last (ksteps_f fuel pk) = true.
+Proof.
+  induction fuel as [|f IH]; intros pk; [reflexivity|]. rewrite ksteps_f_S.
+  destruct pk as [|c pk']; [reflexivity|].
+  destruct (beq (c :: pk') [STAR]); [reflexivity|].
+  destruct (N.eqb (last_byte (c :: pk')) SLASH).
+  - destruct (split_last SLASH (removelast (c :: pk'))) as [[p s]|]; [|reflexivity].
+    destruct (negb (is_nil p) && negb (N.eqb (last_byte p) DOT)); [reflexivity|].
+    destruct (is_nil p); cbn [finals_last is_nil]; [reflexivity|apply IH].
+  - destruct (split_last DOT (c :: pk')) as [[p s]|]; cbn [finals_last is_nil]; [apply IH|reflexivity].
+Qed.
+
+Lemma ksteps_finals_last k : finals_last (ksteps k) = true.
+Proof. apply ksteps_f_finals_last. Qed.
+
+Section InsertAll.
+  Variable V : Type.
+  Variable re_ok : bytes -> bool.
+
+  (** no invariant on the trie, any number of regex segments *)
+  Lemma cgetr_insert_same_all steps : forall (t : trie V) key v t',
+      finals_last steps = true -> insert_w re_ok t steps key v = (t', IOk) -> cgetr V t' steps = Some (key, v).
+  Proof.
+    induction steps as [|st steps IH]; intros [kv w ch rx] key v t' FL H; [discriminate|].
+    destruct st as [| |src pos0|s fin]; cbn [insert_w] in H.
+    - destruct (is_some (aget [STAR] ch)); [discriminate|]. destruct (is_some w); [discriminate|].
+      inversion H; subst. reflexivity.
+    - discriminate.
+    - destruct pos0.
+      + cbn [finals_last] in FL. destruct steps; [|discriminate].
+        destruct (aget src rx) as [sub|] eqn:G.
+        * destruct (is_some (t_kv sub)); [discriminate|]. inversion H; subst.
+          cbn [cgetr t_regexps]. rewrite aget_aset_same by congruence. reflexivity.
+        * destruct (re_ok src); [|discriminate]. inversion H; subst.
+          cbn [cgetr t_regexps]. rewrite aget_app, G. cbn [aget]. rewrite beq_refl. reflexivity.
+      + cbn [finals_last] in FL. destruct (aget src rx) as [sub|] eqn:G.
+        * destruct (insert_w re_ok sub steps key v) as [sub' r] eqn:EI. inversion H; subst.
+          cbn [cgetr t_regexps]. rewrite aget_aset_same by congruence. eapply IH; eauto.
+        * destruct (re_ok src); [|discriminate].
+          destruct (insert_w re_ok root steps key v) as [sub' r] eqn:EI.
+          destruct r; cbn [ires_ok] in H; try discriminate. inversion H; subst.
+          cbn [cgetr t_regexps]. rewrite aget_app, G. cbn [aget]. rewrite beq_refl. eapply IH; eauto.
+    - destruct fin.
+      + cbn [finals_last] in FL. destruct steps; [|discriminate].
+        destruct (aget s ch) eqn:G; cbn [is_some] in H; [discriminate|]. inversion H; subst.
+        cbn [cgetr t_children]. rewrite aget_app, G. cbn [aget]. rewrite beq_refl. reflexivity.
+      + cbn [finals_last] in FL. destruct (aget s ch) as [c|] eqn:G.
+        * destruct (insert_w re_ok c steps key v) as [c' r] eqn:EI. inversion H; subst.
+          cbn [cgetr t_children]. rewrite aget_aset_same by congruence. eapply IH; eauto.
+        * destruct (insert_w re_ok root steps key v) as [c' r] eqn:EI.
+          destruct r; cbn [ires_ok] in H; try discriminate. inversion H; subst.
+          cbn [cgetr t_children]. rewrite aget_app, G. cbn [aget]. rewrite beq_refl. eapply IH; eauto.
+  Qed.
+
+  Lemma cgetk_insert_same_all (t : trie V) key v t' :
+    insert re_ok t key v = (t', IOk) -> cgetk V t' key = Some (key, v).
+  Proof.
+    unfold insert. destruct (is_nil key); [discriminate|]. destruct (beq key [DOT]); [discriminate|].
+    destruct (insert_w re_ok t (ksteps key) key v) as [t1 r] eqn:E. destruct r; intros H; inversion H; subst.
+    eapply cgetr_insert_same_all; [apply ksteps_finals_last|exact E].
+  Qed.
+End InsertAll.
